@@ -566,7 +566,35 @@ func (u *Unit) appendOp(st *State, v ssa.Value, c *ssa.CallCommon, instr ssa.Ins
 }
 
 // callAssumes: facts about external input the unit's contract assumes just before calls to a callee.
-func (u *Unit) callAssumes(st *State, key string) { u.callAssumesWhen(st, key, false) }
+func (u *Unit) callAssumes(st *State, key string) {
+	u.interfere(st)
+	u.callAssumesWhen(st, key, false)
+}
+
+// interfere: in a "concurrent" contract other writers may act between any two calls of the function: the ghosts
+// named by `interferes` are havocked and the `rely` clauses assumed (old() = the state before their step).
+func (u *Unit) interfere(st *State) {
+	if u.con == nil || !u.con.Concurrent || u.curFn != u.top || u.s.specMode > 0 {
+		return
+	}
+	pre := st.clone()
+	for _, name := range u.con.Interferes {
+		g, ok := u.eng.ghosts[name]
+		if !ok {
+			specErr("interferes: unknown ghost %s", name)
+		}
+		t := u.eng.resolveTypeString(g.Type, u.eng.pkgByPath(g.PkgPath))
+		hn := "g$" + name
+		u.heapSort[hn] = u.ty.sortOf(t)
+		st.heaps[hn] = u.s.fresh(hn, u.ty.sortOf(t))
+		u.trackWrite(hn, u.ty.sortOf(t), "", false)
+	}
+	env := u.newEnv(st, pre, u.top, u.eng.contractPkg(u.con))
+	for _, r := range u.con.Rely {
+		u.s.assume(implies(st.reach, env.evalBool(r.Expr)))
+	}
+	u.note("interference model of %s: other writers act only between its calls (callees are atomic), changing %v subject to its rely clauses", u.con.Key, u.con.Interferes)
+}
 
 // callAssumesRes: "assumeafter" facts may name the call's results r0, r1, ...
 func (u *Unit) callAssumesRes(st *State, key string, sig *types.Signature, res []Term) {
